@@ -55,9 +55,38 @@ type numRoot struct {
 
 type numParser struct {
 	p *participle.Parser[numRoot]
+	// shape "tail": the numeric field belongs to the ROOT production itself (no union in between)
+	tail func(input string) (reflect.Value, error)
+}
+
+// a repetition after the capture whose iteration takes a token and then fails: the conversion error of the capture is the error
+// of the parse, wherever later attempts got to
+type numTail[T any] struct {
+	V    T        `@Num`
+	Rest []string `( "," @"never" )*`
+}
+
+func tailParser[T any]() func(string) (reflect.Value, error) {
+	p := participle.MustBuild[numTail[T]](participle.Lexer(numLexSingle), participle.Elide("WS"))
+	return func(input string) (reflect.Value, error) {
+		ast, err := p.ParseString("n.txt", input, participle.AllowTrailing(true))
+		if err != nil {
+			return reflect.Value{}, err
+		}
+		return reflect.ValueOf(ast).Elem().Field(0), nil
+	}
+}
+
+var tailParsers = map[string]func() func(string) (reflect.Value, error){
+	"int8": tailParser[int8], "int16": tailParser[int16], "int32": tailParser[int32], "int64": tailParser[int64], "int": tailParser[int],
+	"uint8": tailParser[uint8], "uint16": tailParser[uint16], "uint32": tailParser[uint32], "uint64": tailParser[uint64], "uint": tailParser[uint],
+	"float32": tailParser[float32], "float64": tailParser[float64],
 }
 
 func numBuild(c *numCase) (*numParser, error) {
+	if c.Shape == "tail" {
+		return &numParser{tail: tailParsers[c.Kind]()}, nil
+	}
 	t := numTypes[c.Kind]
 	tag := "@Num"
 	switch c.Variant {
@@ -85,12 +114,20 @@ func numBuild(c *numCase) (*numParser, error) {
 	if c.Shape == "typedwild" {
 		tag = strings.ReplaceAll(tag, "@Num", `@"":Num`)
 	}
-	st := reflect.StructOf([]reflect.StructField{{Name: "V", Type: t, Tag: reflect.StructTag(tag)}})
+	fields := []reflect.StructField{{Name: "V", Type: t, Tag: reflect.StructTag(tag)}}
+	if c.Shape == "embedded3" {
+		// the field sits in a struct embedded three levels deep, next to a second tagged field of another width
+		l3 := reflect.StructOf([]reflect.StructField{{Name: "V", Type: t, Tag: reflect.StructTag(tag)}, {Name: "W", Type: reflect.TypeOf(int64(0)), Tag: `@Num?`}})
+		l2 := reflect.StructOf([]reflect.StructField{{Name: "L3", Type: l3, Anonymous: true}})
+		l1 := reflect.StructOf([]reflect.StructField{{Name: "L2", Type: l2, Anonymous: true}})
+		fields = []reflect.StructField{{Name: "L1", Type: l1, Anonymous: true}}
+	}
+	st := reflect.StructOf(fields)
 	p, err := participle.Build[numRoot](participle.Lexer(lx), participle.Elide("WS"), participle.Union[numRootU](reflect.New(st).Interface()))
 	if err != nil {
 		return nil, err
 	}
-	return &numParser{p}, nil
+	return &numParser{p: p}, nil
 }
 
 func numValue(v reflect.Value) string {
@@ -165,14 +202,24 @@ func numRun(args []string) error {
 		case "multilast":
 			input = " 7 " + c.S
 			firstOff = 3
+		case "tail":
+			input = "  " + c.S + " , 5"
 		}
+		var popts []participle.ParseOption
 		out := runGuarded(func() (res string) {
 			defer func() {
 				if r := recover(); r != nil {
 					res = fmt.Sprintf("panic %v", r)
 				}
 			}()
-			ast, err := p.p.ParseString("n.txt", input)
+			var ast *numRoot
+			var err error
+			var tv reflect.Value
+			if p.tail != nil {
+				tv, err = p.tail(input)
+			} else {
+				ast, err = p.p.ParseString("n.txt", input, popts...)
+			}
 			if err != nil {
 				flags := []string{}
 				pe, isPE := err.(participle.Error)
@@ -196,7 +243,13 @@ func numRun(args []string) error {
 				}
 				return "fail " + kind + " " + strings.Join(flags, ",")
 			}
+			if p.tail != nil {
+				return "ok " + numValue(tv)
+			}
 			v := reflect.ValueOf(ast.X).Elem().Field(0)
+			if c.Shape == "embedded3" {
+				v = reflect.ValueOf(ast.X).Elem().FieldByName("V")
+			}
 			return "ok " + numValue(v)
 		})
 		line := fmt.Sprintf("%d\t%s", i, out)
